@@ -124,22 +124,25 @@ Proof. reflexivity. Qed.
 Theorem sqrt_precomp_zero_only x : zval x = 0 -> sqrt_precomp x = Some zq_zero.
 Proof. intros H. unfold sqrt_precomp, zq_is_zero. rewrite H. reflexivity. Qed.
 
-(* soundness, conditional on the dyadic (2^32-th roots of unity) step: if invSqrtEqDyadic
-   returns w for rho = z^Q only when w^2 rho = 1, then the returned root squares to z *)
-Definition dyadic_sound : Prop :=
-  forall rho w, inv_sqrt_eq_dyadic rho = Some w -> zq_mul (zq_mul w w) rho = zq_one.
+(* soundness, conditional on the dyadic (2^32-th roots of unity) step AT rho = z^Q: if
+   invSqrtEqDyadic returns w for this rho only when w^2 rho = 1, then the returned root squares
+   to z.  (DyadicProofs.v proves the condition for every rho in the subgroup generated by the
+   dyadic root, and refutes it for rho outside.) *)
+Definition dyadic_sound_at (rho : Fp) : Prop :=
+  forall w, inv_sqrt_eq_dyadic rho = Some w -> zq_mul (zq_mul w w) rho = zq_one.
 
 Add Ring FpRingS : (zq_ring_theory p_mod p_mod_gt1).
 
 Local Opaque chain_exp_candidate chain_exp_root chain_exponents.
-Theorem sqrt_precomp_sound (z y : Fp) : dyadic_sound -> sqrt_precomp z = Some y -> zq_mul y y = z.
+Theorem sqrt_precomp_sound (z y : Fp) :
+  dyadic_sound_at (zq_pow z chain_exp_root) -> sqrt_precomp z = Some y -> zq_mul y y = z.
 Proof.
   intros HD. unfold sqrt_precomp. destruct (zq_is_zero z) eqn:Ez.
   - intros H. injection H as <-. apply fp_is_zero_eq in Ez. subst z. apply zq_eq. reflexivity.
   - rewrite relevant_powers_spec.
     destruct (inv_sqrt_eq_dyadic (zq_pow z chain_exp_root)) as [w|] eqn:Ew; [|discriminate].
     intros H. assert (Hy : y = zq_mul (zq_pow z chain_exp_candidate) w) by congruence. subst y. clear H.
-    pose proof (HD _ _ Ew) as Hw.
+    pose proof (HD _ Ew) as Hw.
     destruct chain_exponents_spec as (_ & _ & Hroot & Hcand & _).
     set (c := zq_pow z chain_exp_candidate) in *. set (rho := zq_pow z chain_exp_root) in *.
     assert (Hc2 : zq_mul c c = zq_mul rho z).
@@ -185,16 +188,17 @@ Proof. vm_compute. split; reflexivity. Qed.
 (* computeY: the returned y puts (x, y) on the curve  a x^2 + y^2 = 1 + d x^2 y^2, provided the
    square root is sound and the denominator d x^2 - 1 is invertible *)
 Theorem compute_y_on_curve (x y : Fp) b :
-  dyadic_sound ->
+  dyadic_sound_at (zq_pow (zq_div (zq_sub (zq_mul (zq_mul x x) bw_a) zq_one)
+                                  (zq_sub (zq_mul (zq_mul x x) bw_d) zq_one)) chain_exp_root) ->
   AlgLaws.invertible fpo (zq_sub (zq_mul (zq_mul x x) bw_d) zq_one) ->
   compute_y x b = Some y ->
   zq_add (zq_mul bw_a (zq_mul x x)) (zq_mul y y) = zq_add zq_one (zq_mul (zq_mul bw_d (zq_mul x x)) (zq_mul y y)).
 Proof.
   intros HD Hden. unfold compute_y.
   set (den := zq_sub (zq_mul (zq_mul x x) bw_d) zq_one) in *.
-  set (num := zq_sub (zq_mul (zq_mul x x) bw_a) zq_one).
+  set (num := zq_sub (zq_mul (zq_mul x x) bw_a) zq_one) in *.
   destruct (sqrt_precomp (zq_div num den)) as [s|] eqn:Es; [|discriminate].
-  pose proof (sqrt_precomp_sound _ _ HD Es) as Hs.
+  pose proof (sqrt_precomp_sound _ _ HD Es) as Hs. clear HD.
   assert (Hy2 : forall y0, (y0 = s \/ y0 = zq_neg s) -> zq_mul (zq_mul y0 y0) den = num).
   { intros y0 Hy0. assert (E : zq_mul y0 y0 = zq_mul s s) by (destruct Hy0 as [->| ->]; unfold Fp in *; ring).
     rewrite E, Hs. unfold zq_div.
